@@ -513,6 +513,13 @@ def summarize(pid, tier, seed, results, wall):
             assumptions.add(a)
         for a in r.get("trusted_axioms", []):
             trusted_base.add(a)
+        # callees used through an ASSUMED contract (trusted=True in the sidecar, body not verified), whatever property they are filed under
+        for cq in r.get("callees", []):
+            cc = api.REG.get(cq)
+            if cc is not None and cc.trusted:
+                name = cq.split(":", 1)[-1]
+                if name not in trusted:
+                    trusted.append(name)
         samples += [dict(s_, function=fq) for s_ in r.get("samples", [])][:1]
         nobl = len(r["obligations"])
         if st == "ok" and nobl == 0:
